@@ -1,0 +1,131 @@
+//! Verification hook (cfg ordinals_ord_verif): what `ord wallet batch` does between loading
+//! the batch file and signing, for a wallet state supplied by the caller.
+//!
+//! `run` mirrors `subcommand::wallet::batch_command::Batch::run`: parent lookup,
+//! `batch::File::inscriptions`, assembly of the `Plan`, `Plan::create_batch_transactions`
+//! and `Plan::output`. The `Wallet` it passes is built from the given maps; only its
+//! `chain()` and `get_change_address()` (a call to the node) are used on this path, so no
+//! `ord server` is needed.
+use super::*;
+
+pub struct BatchRun {
+  pub commit_tx: Transaction,
+  pub reveal_tx: Transaction,
+  pub output: batch::Output,
+  pub postages: Vec<Amount>,
+}
+
+#[allow(clippy::too_many_arguments)]
+pub fn run(
+  file: &batch::File,
+  settings: Settings,
+  wallet_name: &str,
+  utxos: BTreeMap<OutPoint, TxOut>,
+  wallet_inscriptions: BTreeMap<SatPoint, Vec<InscriptionId>>,
+  locked: BTreeSet<OutPoint>,
+  runic: BTreeSet<OutPoint>,
+  parents: Vec<(InscriptionId, SatPoint)>,
+  fee_rate: FeeRate,
+) -> Result<BatchRun> {
+  let name = wallet_name.to_string();
+
+  let wallet = Wallet {
+    bitcoin_client: settings.bitcoin_rpc_client(Some(name.clone()))?,
+    database: Wallet::open_database(&name, &settings)?,
+    has_rune_index: true,
+    has_sat_index: false,
+    rpc_url: "http://127.0.0.1:1".parse().unwrap(),
+    utxos: utxos.clone(),
+    ord_client: reqwest::blocking::Client::new(),
+    inscription_info: BTreeMap::new(),
+    output_info: BTreeMap::new(),
+    inscriptions: wallet_inscriptions.clone(),
+    locked_utxos: BTreeMap::new(),
+    settings,
+  };
+
+  // Wallet::get_parent_info without the existence check against the server
+  let mut parent_info = Vec::new();
+  for (id, satpoint) in parents {
+    let tx_out = utxos
+      .get(&satpoint.outpoint)
+      .ok_or_else(|| anyhow!("parent {id} not in wallet"))?
+      .clone();
+
+    parent_info.push(ParentInfo {
+      destination: wallet.get_change_address()?,
+      id,
+      location: satpoint,
+      tx_out,
+    });
+  }
+
+  let (inscriptions, reveal_satpoints, postages, destinations) = file.inscriptions(
+    &wallet,
+    &utxos,
+    parent_info
+      .iter()
+      .map(|info| info.tx_out.value.to_sat())
+      .collect(),
+    false,
+  )?;
+
+  let mut locked_utxos = locked;
+
+  locked_utxos.extend(
+    reveal_satpoints
+      .iter()
+      .map(|(satpoint, _txout)| satpoint.outpoint),
+  );
+
+  let plan = Plan {
+    commit_fee_rate: fee_rate,
+    destinations,
+    dry_run: true,
+    etching: file.etching,
+    inscriptions,
+    mode: file.mode,
+    no_backup: true,
+    no_limit: false,
+    parent_info,
+    postages: postages.clone(),
+    reinscribe: file.reinscribe,
+    reveal_fee_rate: fee_rate,
+    reveal_satpoints,
+    satpoint: file.satpoint,
+  };
+
+  let Transactions {
+    commit_tx,
+    reveal_tx,
+    total_fees,
+    rune,
+    ..
+  } = plan.create_batch_transactions(
+    wallet_inscriptions,
+    wallet.chain(),
+    locked_utxos,
+    runic,
+    utxos,
+    [wallet.get_change_address()?, wallet.get_change_address()?],
+    wallet.get_change_address()?,
+  )?;
+
+  let output = plan.output(
+    commit_tx.compute_txid(),
+    None,
+    reveal_tx.compute_txid(),
+    false,
+    None,
+    total_fees,
+    plan.inscriptions.clone(),
+    rune,
+  );
+
+  Ok(BatchRun {
+    commit_tx,
+    reveal_tx,
+    output,
+    postages,
+  })
+}
